@@ -322,7 +322,8 @@ def run_zip(case, ctx):
                     getattr(sf.Bus.from_frames(fr), to)(wp, config=cfgm)
                     b = getattr(sf.Bus, frm)(wp, config=cfgm)
                     sel = b.loc[[f.name for f in fr]]          # a multi-label read through the pool
-                    return tuple((k, snap(v)) for k, v in zip(sel.index.values.tolist(), sel._series.values))
+                    # the archive's own label order (member order of the zip, as written by the pool) is part of the result
+                    return (('labels-in-store-order', tuple(b.index.values.tolist())),) + tuple((k, snap(v)) for k, v in zip(sel.index.values.tolist(), sel._series.values))
                 for trace, order, out in sched.explore(lambda: outcome(write_then_read), limit=600):
                     ctx.transition()
                     ctx.state(('zip', fmt, workers, chunk, tuple(order)))
@@ -342,7 +343,10 @@ def run_zip(case, ctx):
                     fr = frames_h
                     cfg1 = sf.StoreConfigMap({f.name: sf.StoreConfig(index_depth=f.index.depth) for f in frames_h}, default=sf.StoreConfig(index_depth=1))
                 getattr(sf.Bus.from_frames(fr), to)(wp, config=cfg1)
-                one = outcome(lambda: tuple((k, snap(v)) for k, v in getattr(sf.Bus, frm)(wp, config=cfg1).items()))
+                def read_one():
+                    b1 = getattr(sf.Bus, frm)(wp, config=cfg1)
+                    return (('labels-in-store-order', tuple(b1.index.values.tolist())),) + tuple((k, snap(v)) for k, v in b1.items())
+                one = outcome(read_one)
                 if base is not None and base != one:
                     ctx.violation(f'zip|{fmt}|multi-worker-store-differs-from-single-worker', **info, got=repr(base)[:300], expected=repr(one)[:300])
     finally:
